@@ -2,6 +2,7 @@ import XalanModel.C16.CacheProofs
 import XalanModel.C16.DecodeProofs
 import XalanModel.C16.CollatorProofs
 import XalanModel.C16.LibSortProofs
+import XalanModel.C16.PositionProofs
 /-!
 # C16 — xsl:sort yields a stable permutation ordered by its keys
 
@@ -448,6 +449,34 @@ theorem noCacheGuards_counterexample :
   decide
 
 /-! ## what the body sees -/
+
+/-- **position_cache_transparent.**  For every history of `pushContextNodeList` / `popContextNodeList` /
+`position()` / `last()` — inner xsl:for-each, xsl:apply-templates, location steps and predicates nested to any
+depth inside a sorted body, in any order — every `position()` returns the 1-based index of the asked node in the
+list on TOP of the stack at that moment (0 if absent) and every `last()` that list's length: the one-entry
+position cache (cleared by push and by pop) never shows through. -/
+theorem position_cache_transparent [DecidableEq α] (ops : List (PosOp α)) (stack : List (List α)) :
+    posRun posStep ⟨stack, none⟩ ops = posSpec stack ops :=
+  posRun_eq_spec ops ⟨stack, none⟩ (fun _ _ h => by simp at h)
+
+/-- **body_position_after_inner.**  In particular: in the body of a sorted instruction, for the `i`-th node of the
+sorted list, after ANY inner construct (whose node list may end in the current node itself, so that the cache was
+last filled with the current node's position in the INNER list) and with nothing in between, `position()` is `i+1`
+and `last()` is the number of sorted nodes. -/
+theorem body_position_after_inner [DecidableEq α] (out inner : List α) (below : List (List α)) (i : Nat)
+    (hi : i < out.length) (hnd : out.Nodup) :
+    posRun posStep ⟨out :: below, none⟩ (bodyOps inner (out[i])) =
+      0 :: inner.map (indexOf1 inner) ++ [0, i + 1, out.length] := by
+  rw [position_cache_transparent, posSpec_body]
+  simp [indexOf1_getElem out i hi hnd]
+
+/-- **popKeepsCache_counterexample.**  If `popContextNodeList` did not clear the cache (not the code): sorted list
+`[2, 0, 1]`, current node 2 (sorted position 1), an inner loop over `[0, 1, 2]` (document order, ending in the
+current node, inner position 3): the next `position()` answers 3. -/
+theorem popKeepsCache_counterexample :
+    posRun posStepPopKeeps ⟨[[2, 0, 1]], none⟩ (bodyOps [0, 1, 2] 2) = [0, 1, 2, 3, 0, 3, 3] ∧
+    posRun posStep ⟨[[2, 0, 1]], none⟩ (bodyOps [0, 1, 2] 2) = [0, 1, 2, 3, 0, 1, 3] := by decide
+
 
 /-- **process_positions.**  The instruction processes the sorted list in order with `position()` =
 index + 1 and `last()` = number of selected nodes; and the `> 1 node / ≥ 1 key` guard of
